@@ -197,7 +197,7 @@ fn got_thunk_case() {
     core::mem::forget((keep, env));
 }
 
-// @harness id=c04_do_thunk_steps props=C04 tier=quick cap=1200 unwindset=9Evaluator3run@first:1
+// @harness id=c04_do_thunk_steps props=C04 tier=thorough cap=1200 unwindset=9Evaluator3run@first:1
 // @desc one iteration of the real Evaluator::run per case: DoThunk(t) with t Done(v): v is pushed and nothing is scheduled (a value is never computed twice); t Pending: t becomes InProgress, GotThunk(t) is scheduled below the delayed expression, nothing is pushed yet
 // @bound one loop iteration per case; values = arbitrary finite numbers
 // @funcs Evaluator::run (arm State::DoThunk), ThunkData::switch_state
@@ -333,7 +333,7 @@ fn c08_equals_mixed_types() {
 }
 }
 
-// @harness id=c08_equals_array_other props=C08 tier=quick cap=1500 unwindset=9Evaluator3run@first:1
+// @harness id=c08_equals_array_other props=C08 tier=thorough cap=1500 unwindset=9Evaluator3run@first:1
 // @desc EqualsValue per case: []/number is false; []/[] is true without evaluating anything
 // @bound one loop iteration per case
 // @funcs Evaluator::run (arm State::EqualsValue)
@@ -446,18 +446,29 @@ fn equals_array_step_case() {
     core::mem::forget((la, ra, l_items, r_items, env));
 }
 
-// @harness id=c08_equals_arrays props=C08 tier=quick cap=1500 unwindset=9Evaluator3run@first:1
-// @desc one iteration of the real Evaluator::run per case. EqualsValue over two 2-element arrays of unevaluated items: no verdict yet; scheduled, in evaluation order: lhs[0], rhs[0], their EqualsValue, then EqualsArray{index 0}, inside one counted frame. Lengths 1 and 2: false at once, no item evaluated. EqualsArray{lhs, rhs, index} over two 3-element arrays, from ANY index and ANY outcome of the item comparison just made: at the last index the item's verdict is the array's verdict; before it a false item gives false at once (later items are never evaluated) and a true item schedules exactly the comparison of item index+1. By induction over the index: arrays are equal iff same length and all items equal, compared left to right
-// @bound one loop iteration per case; arrays of length 1..3, index in 0..3
-// @funcs Evaluator::run (arms State::EqualsValue, State::EqualsArray)
+// @harness id=c08_equals_arrays_start props=C08 tier=quick cap=1200 unwindset=9Evaluator3run@first:1
+// @desc one iteration of the real Evaluator::run per case. EqualsValue over two 2-element arrays of unevaluated items: no verdict yet; scheduled, in evaluation order: lhs[0], rhs[0], their EqualsValue, then EqualsArray{index 0}, inside one counted frame. Lengths 1 and 2: false at once, no item evaluated
+// @bound one loop iteration per case; arrays of length 1..2
+// @funcs Evaluator::run (arm State::EqualsValue)
 run_stubs_all! {
 #[kani::proof]
 #[kani::unwind(5)]
-fn c08_equals_arrays() {
+fn c08_equals_arrays_start() {
     equals_arrays_start_case::<2, 2>();
     kani::cover!(true, "same length: item 0 scheduled");
     equals_arrays_start_case::<1, 2>();
     kani::cover!(true, "different lengths");
+}
+}
+
+// @harness id=c08_equals_array_step props=C08 tier=quick cap=1200 unwindset=9Evaluator3run@first:1
+// @desc one iteration of the real Evaluator::run on EqualsArray{lhs, rhs, index} over two 3-element arrays, from ANY index and ANY outcome of the item comparison just made: at the last index the item's verdict is the array's verdict; before it a false item gives false at once (later items are never evaluated) and a true item schedules exactly the comparison of item index+1. By induction over the index: arrays are equal iff same length and all items equal, compared left to right
+// @bound one loop iteration; arrays of length 3, index in 0..3
+// @funcs Evaluator::run (arm State::EqualsArray)
+run_stubs_all! {
+#[kani::proof]
+#[kani::unwind(5)]
+fn c08_equals_array_step() {
     equals_array_step_case();
 }
 }
@@ -489,7 +500,6 @@ fn compare_prim_case(kl: u8, kr: u8) -> Option<std::cmp::Ordering> {
         let o = ev.cmp_ord_stack[0];
         assert!((o == std::cmp::Ordering::Less) == (ln < rn) && (o == std::cmp::Ordering::Greater) == (ln > rn) && (o == std::cmp::Ordering::Equal) == (ln == rn),
                 "numbers are ordered numerically (total on finite numbers, -0 equals +0)");
-        kani::cover!(o == std::cmp::Ordering::Equal && ln.to_bits() != rn.to_bits(), "zeros of both signs are equal");
     } else if kl == 3 && kr == 3 {
         assert!(is_stack_overflow(&r));
         assert!(ev.cmp_ord_stack.len() == 1 && ev.cmp_ord_stack[0] == la.cmp(&ra), "strings are ordered by their characters");
@@ -621,36 +631,61 @@ fn compare_array_step_case<const NL: usize, const NR: usize>() {
     core::mem::forget((la, ra, l_items, r_items, env));
 }
 
-// @harness id=c08_compare_arrays_start props=C08 tier=quick cap=1500 unwindset=9Evaluator3run@first:1
-// @desc one iteration of the real Evaluator::run on CompareValue over arrays of unevaluated items per case: [] vs [x, y]: Less, [x, y] vs []: Greater, nothing evaluated; non-empty arrays of lengths 1 and 2: item 0 of both is scheduled (lhs first), then CompareValue, then CompareArray{index 0}
-// @bound one loop iteration per case; lengths 0..2
+// @harness id=c08_compare_arrays_empty props=C08 tier=quick cap=1200 unwindset=9Evaluator3run@first:1
+// @desc one iteration of the real Evaluator::run on CompareValue over arrays of unevaluated items per case: [] vs [x, y] is Less and [x, y] vs [] is Greater (an empty array is smaller than any non-empty one, on whichever side it stands); nothing is evaluated
+// @bound one loop iteration per case; lengths 0 and 2
+// @funcs Evaluator::run (arm State::CompareValue)
+run_stubs_all! {
+#[kani::proof]
+#[kani::unwind(5)]
+fn c08_compare_arrays_empty() {
+    compare_arrays_start_case::<0, 2>();
+    kani::cover!(true, "lhs empty");
+    compare_arrays_start_case::<2, 0>();
+    kani::cover!(true, "rhs empty");
+}
+}
+
+// @harness id=c08_compare_arrays_start props=C08 tier=quick cap=1200 unwindset=9Evaluator3run@first:1
+// @desc one iteration of the real Evaluator::run on CompareValue over non-empty arrays of lengths 1 and 2: item 0 of both is scheduled (lhs first), then CompareValue, then CompareArray{index 0}
+// @bound one loop iteration; lengths 1 and 2
 // @funcs Evaluator::run (arm State::CompareValue)
 run_stubs_all! {
 #[kani::proof]
 #[kani::unwind(5)]
 fn c08_compare_arrays_start() {
-    compare_arrays_start_case::<0, 2>();
-    kani::cover!(true, "lhs empty");
-    compare_arrays_start_case::<2, 0>();
-    kani::cover!(true, "rhs empty");
     compare_arrays_start_case::<1, 2>();
     kani::cover!(true, "item 0 scheduled");
 }
 }
 
-// @harness id=c08_compare_array_steps props=C08 tier=quick cap=1500 unwindset=9Evaluator3run@first:1
-// @desc one iteration of the real Evaluator::run on CompareArray{lhs, rhs, index} for the length pairs (2,3), (3,2), (3,3), from ANY index present in both arrays and ANY outcome of the item comparison just made: a non-Equal item decides (later items are not evaluated); on Equal, if one side is exhausted the shorter array is smaller and equal lengths give Equal (prefix rule), otherwise item index+1 of both is scheduled. With induction over the index this is the lexicographic order
-// @bound one loop iteration per case; lengths 2 and 3
+macro_rules! compare_array_step_harness {
+    ($name:ident, $nl:expr, $nr:expr) => {
+        run_stubs_all! {
+        #[kani::proof]
+        #[kani::unwind(5)]
+        fn $name() {
+            compare_array_step_case::<{ $nl }, { $nr }>();
+        }
+        }
+    };
+}
+
+// @harness id=c08_compare_array_step_2_3 props=C08 tier=quick cap=1200 unwindset=9Evaluator3run@first:1
+// @desc one iteration of the real Evaluator::run on CompareArray{lhs (2 items), rhs (3 items), index} from ANY index present in both arrays and ANY outcome of the item comparison just made: a non-Equal item decides (later items are not evaluated); on Equal, if lhs is exhausted first the result is Less (a proper prefix is smaller), otherwise item index+1 of both is scheduled. With the twins _3_2 and _3_3 and induction over the index this is the lexicographic order
+// @bound one loop iteration; lengths 2 and 3
 // @funcs Evaluator::run (arm State::CompareArray)
-run_stubs_all! {
-#[kani::proof]
-#[kani::unwind(5)]
-fn c08_compare_array_steps() {
-    compare_array_step_case::<2, 3>();
-    compare_array_step_case::<3, 2>();
-    compare_array_step_case::<3, 3>();
-}
-}
+compare_array_step_harness!(c08_compare_array_step_2_3, 2, 3);
+// @harness id=c08_compare_array_step_3_2 props=C08 tier=quick cap=1200 unwindset=9Evaluator3run@first:1
+// @desc as c08_compare_array_step_2_3 with lengths 3 and 2 (rhs exhausted first: Greater)
+// @bound one loop iteration; lengths 3 and 2
+// @funcs Evaluator::run (arm State::CompareArray)
+compare_array_step_harness!(c08_compare_array_step_3_2, 3, 2);
+// @harness id=c08_compare_array_step_3_3 props=C08 tier=thorough cap=1200 unwindset=9Evaluator3run@first:1
+// @desc as c08_compare_array_step_2_3 with lengths 3 and 3 (both exhausted together: Equal)
+// @bound one loop iteration; lengths 3 and 3
+// @funcs Evaluator::run (arm State::CompareArray)
+compare_array_step_harness!(c08_compare_array_step_3_3, 3, 3);
 
 /// which: 0 `<`, 1 `<=`, 2 `>`, 3 `>=`
 fn cmp_to_bool_case(which: u8) {
